@@ -141,7 +141,10 @@ def run_history(mods, job):
             ev["P_in"] = P_in.tolist()
             ev["P_out"] = cov.data.tolist()
         events.append(ev)
-        if not np.all(np.isfinite(state.data)) or np.max(np.abs(state.data)) > 1e8 or np.max(np.abs(cov.data)) > 1e4 * max(1.0, mag):
+        # the bounded, well-conditioned regime the assumptions name: the covariance stays within 1e4 times the magnitude the
+        # noises were scaled with (prior-to-noise ratio).  (Relative to `mag` itself: with max(1, mag) a history that starts at
+        # 1e-8 could reach a ratio of 1e12 -- cond(S) = 6e8 -- and be judged.)
+        if not np.all(np.isfinite(state.data)) or np.max(np.abs(state.data)) > 1e8 or np.max(np.abs(cov.data)) > 1e4 * mag:
             break      # outside the bounded regime the property talks about
     return events
 
